@@ -4,9 +4,9 @@ CONSTANTS Variant = "ok"
  MCP = 7
  MCN = 3
  MCTs = {2}
- MCVs = {2}
- PolyMode = "few"
- OrderMode = "free"
+ MCVs = {1}
+ PolyMode = "all"
+ OrderMode = "canon"
  MaxDup = 0
 INVARIANTS TypeOK NoFailure ThresholdIsT Agreement KeyedByShareIdx OwnShareMatches GroupKeyIsSum AnyTRecover AnyTSign BelowThresholdSafe
 CHECK_DEADLOCK TRUE
